@@ -70,6 +70,9 @@ type unit struct {
 	NChoices int      `json:"nchoices,omitempty"`
 	Seq      []string `json:"seq,omitempty"`
 	R        []int    `json:"r,omitempty"`
+	Dev      int      `json:"dev,omitempty"`
+	DevCap   int      `json:"dev_cap,omitempty"`
+	DevAt    []int    `json:"dev_at,omitempty"`
 	Sites    string   `json:"sites,omitempty"`
 
 	pass string  // orchestrator only
@@ -250,15 +253,94 @@ func schemaPath(id string) string {
 // (ReadFile leaves spare capacity behind them) and a union with inline struct and message members.
 const noImports = `struct NiPoint { int32 x; int32 y; }
 struct NiSize { uint16 w; uint16 h; }
-struct NiLabel { string text; NiPoint at; }
+struct NiLabel {
+  //[tag(json:"text")]
+  //[tag(json:"label_text,omitempty")]
+  //[tag(db:"text")]
+  //[tag(yaml:"text")]
+  string text;
+  //[tag(json:"at")]
+  //[tag(json:"at")]
+  NiPoint at;
+}
 union NiShape {
   1 -> struct NiCircle { NiPoint centre; float32 r; }
-  2 -> message NiText { 1 -> NiLabel label; 2 -> NiSize box; }
+  //[tag(kind:"text")]
+  //[tag(kind:"txt")]
+  //[tag(other:"x")]
+  2 -> message NiText {
+    //[tag(json:"label")]
+    //[tag(json:"lbl")]
+    //[tag(xml:"label")]
+    1 -> NiLabel label;
+    2 -> NiSize box;
+  }
   3 -> struct NiBox { NiPoint a; NiPoint b; NiLabel[] labels; }
 }
 message NiDrawing { 1 -> NiShape[] shapes; 2 -> map[string, NiCircle] named; }
 enum NiKind { A = 1; B = 2; }
 `
+
+// structRing is INVALID on purpose: a struct that contains itself through a ring of six, next to structs that are not on
+// the ring. Validate and Generate must reject it under every map iteration order (the recursion analysis iterates maps).
+const structRing = `struct RgLeafA { int32 v; }
+struct Rg0 { int32 v; Rg1 next; }
+struct Rg1 { RgLeafA a; Rg2 next; }
+struct Rg2 { int32 v; Rg3 next; }
+struct RgLeafB { string s; RgLeafA a; }
+struct Rg3 { Rg4 next; }
+struct Rg4 { RgLeafB b; Rg5 next; }
+struct Rg5 { Rg0 next; }
+`
+
+// ringSchemas is a family of INVALID schemas: a struct containing itself through a ring of n structs, declared forwards,
+// backwards or interleaved, with structs that are not on the ring declared first, in the middle or last.
+func ringSchemas() map[string]string {
+	out := map[string]string{}
+	for _, n := range []int{3, 4, 5, 6, 8, 10} {
+		for _, order := range []string{"fwd", "rev", "mix"} {
+			for _, leaves := range []int{1, 3, 6} {
+				for _, pos := range []string{"first", "mid", "last"} {
+					ring := make([]string, n)
+					for i := range ring {
+						ring[i] = fmt.Sprintf("struct Rg%d { int32 v; Rg%d next; RgLeaf%d l; }\n", i, (i+1)%n, i%leaves)
+					}
+					idx := make([]int, n)
+					for i := range idx {
+						switch order {
+						case "fwd":
+							idx[i] = i
+						case "rev":
+							idx[i] = n - 1 - i
+						default:
+							if i%2 == 0 {
+								idx[i] = i / 2
+							} else {
+								idx[i] = n - 1 - i/2
+							}
+						}
+					}
+					var lv strings.Builder
+					for i := 0; i < leaves; i++ {
+						fmt.Fprintf(&lv, "struct RgLeaf%d { float32 x; float32 y; }\n", i)
+					}
+					var b strings.Builder
+					for k, i := range idx {
+						if (pos == "first" && k == 0) || (pos == "mid" && k == n/2) {
+							b.WriteString(lv.String())
+						}
+						b.WriteString(ring[i])
+					}
+					if pos == "last" {
+						b.WriteString(lv.String())
+					}
+					out[fmt.Sprintf("invalid-ring-%d-%s-%d-%s", n, order, leaves, pos)] = b.String()
+				}
+			}
+		}
+	}
+	return out
+}
 
 func writeSchemas() {
 	w := func(rel, text string) string {
@@ -278,6 +360,10 @@ func writeSchemas() {
 	w("maps/impa.bop", a)
 	w("maps/impb.bop", b)
 	schemaPaths["builtin:noimports"] = w("noimports/main.bop", noImports)
+	schemaPaths["builtin:invalid-ring"] = w("invalid-ring/main.bop", structRing)
+	for name, text := range ringSchemas() {
+		schemaPaths["ring:"+name] = w(name+"/main.bop", text)
+	}
 }
 
 // ---------------------------------------------------------------- builds
@@ -561,15 +647,44 @@ func main() {
 	})
 
 	// map orders
-	allSchemas := append([]string{schemaPaths["builtin:maps"], small, schemaPaths["builtin:noimports"]}, repoSchemas()...)
+	allSchemas := append([]string{schemaPaths["builtin:maps"], small, schemaPaths["builtin:noimports"], schemaPaths["builtin:invalid-ring"]}, repoSchemas()...)
 	var cheap []*unit
 	allOps := append(append([]string{}, alphabet...), extraOps...)
+	// one-deviation pass: deviation values 0..7 cover every start of a map of up to 8 entries, 0..15 of up to 13
+	devVals := 8
+	if thorough {
+		devVals = 16
+	}
+	var rings []string
+	for k, p := range schemaPaths {
+		if strings.HasPrefix(k, "ring:") {
+			rings = append(rings, p)
+		}
+	}
+	sort.Strings(rings)
+	for i := 0; i < len(rings); i += 11 {
+		j := min(i+11, len(rings))
+		cheap = append(cheap, &unit{Mode: "maporder", Schemas: rings[i:j], Ops: []string{"Validate"}, Rs: 64, Dev: devVals, pass: "maporder"})
+	}
 	for i := 0; i < len(allSchemas); i += 3 {
 		j := i + 3
 		if j > len(allSchemas) {
 			j = len(allSchemas)
 		}
 		cheap = append(cheap, &unit{Mode: "maporder", Schemas: allSchemas[i:j], Ops: allOps, Rs: 64, pass: "maporder"})
+	}
+	// one deviation, on the valid schemas: Validate everywhere, Generate on the harness's own schemas
+	devCap, genCap := 400, 150
+	if thorough {
+		devCap, genCap = 0, 4000
+	}
+	for i := 0; i < len(allSchemas); i += 2 {
+		cheap = append(cheap, &unit{Mode: "maporder", Schemas: allSchemas[i:min(i+2, len(allSchemas))], Ops: []string{"Validate"}, Rs: 1, Dev: devVals, DevCap: devCap, pass: "maporder"})
+	}
+	for _, sp := range []string{schemaPaths["builtin:maps"], small, schemaPaths["builtin:noimports"]} {
+		for _, op := range []string{"Generate-separate", "Generate-combined-allflags"} {
+			cheap = append(cheap, &unit{Mode: "maporder", Schemas: []string{sp}, Ops: []string{op}, Rs: 1, Dev: devVals, DevCap: genCap, pass: "maporder"})
+		}
 	}
 	// repetition / aliasing
 	maxLen := 2
@@ -826,6 +941,9 @@ func main() {
 	run.Coverage["passes"] = passCov
 	run.Coverage["map_orders"] = mapOrders
 	run.Coverage["map_order_iteration_starts"] = 64
+	run.Coverage["map_order_one_deviation"] = map[string]any{"deviation_values": devVals, "runs": info["one_deviation_runs"],
+		"positions_per_call_Validate": map[bool]string{true: "all", false: fmt.Sprintf("first %d", devCap)}[devCap == 0], "positions_per_call_Generate": fmt.Sprintf("first %d", genCap),
+		"what": "every uniform start 0..7 combined with ONE map iteration of the call (parse included) starting elsewhere: Validate on every schema and on a family of 162 invalid struct rings (must be rejected under every order), Generate on the harness's schemas"}
 	run.Coverage["sequences"] = sequences
 	run.Coverage["sequence_max_len"] = maxLen
 	run.Coverage["race_iterations"] = raceIters
@@ -841,7 +959,7 @@ func main() {
 		"transition = one executed yield; a schedule is one complete execution of the real (rewritten) package bebop under one choice sequence; " +
 		"exploration is a deviation-bounded DFS enumerating EVERY schedule with at most k preemptions per pass (no sampling), sharded over processes by first-level subtrees; " +
 		"distinct_nontrivial = distinct (pass, operation multiset, per-thread result vs solo, File state) outcomes; " +
-		"map_orders = executions under a forced map-iteration start (all 64 starts x operations x schemas); sequences = call sequences on one File value; " +
+		"map_orders = executions under a forced map-iteration start (all 64 uniform starts x operations x schemas, plus uniform start x one deviating iteration, see map_order_one_deviation); sequences = call sequences on one File value; " +
 		"race_iterations = free-running executions under the Go race detector (dynamic happens-before analysis, complementary, not exhaustive)"
 	run.Coverage["explanation"] = "every schedule, map order and sequence is executed on the real code of /repo's working tree (yields injected at build time through go build -overlay; /repo is not modified)"
 	run.Assume = []string{
@@ -904,6 +1022,11 @@ func replay(path string) int {
 		if l, ok := c["r"].([]any); ok {
 			for _, e := range l {
 				u.R = append(u.R, int(e.(float64)))
+			}
+		}
+		if l, ok := c["dev"].([]any); ok {
+			for _, e := range l {
+				u.DevAt = append(u.DevAt, int(e.(float64)))
 			}
 		}
 	case "race":
